@@ -345,7 +345,7 @@ func GenC11(seed uint64, tier string) *Config {
 	c.DataHex = hex.EncodeToString(data)
 	L := len(data) + 8
 	c.Strat = genStrategy(r, c.Workers)
-	c.StepCap = 100000
+	c.StepCap = 150 + r.IntN(600)
 	c.Fault = FaultPlan{Kind: "none"}
 	c.Background = r.IntN(2) == 0
 	stubMode := r.IntN(10) < 5
@@ -409,7 +409,7 @@ func GenC12(seed uint64, tier string) *Config {
 	c.DataHex = hex.EncodeToString(data)
 	L := len(data) + 8
 	c.Strat = genStrategy(r, c.Workers)
-	c.StepCap = 100000
+	c.StepCap = 150 + r.IntN(600)
 	c.Fault = FaultPlan{Kind: "none"}
 	c.Background = r.IntN(2) == 0
 	stubMode := r.IntN(10) < 7
